@@ -150,7 +150,11 @@ func checkTotal(ev *Evaluator, d interface{}, what string) {
 // H_C09_matrix: 8 operators x shapes x literal, selector resolves directly.
 func H_C09_matrix() {
 	op := vChoose(8)
-	v, name := shapeC09(vChoose(nShapes))
+	sc := vChoose(nShapes)
+	if vTier() == 0 {
+		vAssume((sc+op)%2 == vSeed()%2) // quick: a seed-selected half of the (shape, operator) pairs
+	}
+	v, name := shapeC09(sc)
 	ev := mustCreate(exprFor(op, "a", "x"))
 	if hasValue(op) {
 		setLit(ev, litC09(op, name))
@@ -163,7 +167,11 @@ func H_C09_matrix() {
 // binding, and inside connectives whose operands error.
 func H_C09_nested() {
 	op := vChoose(8)
-	v, name := shapeC09(vChoose(nShapes))
+	sc := vChoose(nShapes)
+	if vTier() == 0 {
+		vAssume((sc+op)%3 == vSeed()%3)
+	}
+	v, name := shapeC09(sc)
 	form := vChoose(5)
 	var ev *Evaluator
 	var d interface{}
@@ -209,8 +217,12 @@ var scalarShapes = []int{1, 2, 5, 7, 8, 12, 27, 43, 0}
 // different kinds, and one quantifier over elements of different kinds.
 func H_C09_sequence() {
 	op := vChoose(8)
-	v1, n1 := shapeC09(scalarShapes[vChoose(len(scalarShapes))])
-	v2, n2 := shapeC09(scalarShapes[vChoose(len(scalarShapes))])
+	s1, s2 := vChoose(len(scalarShapes)), vChoose(len(scalarShapes))
+	if vTier() == 0 {
+		vAssume((s1+s2+op)%3 == vSeed()%3)
+	}
+	v1, n1 := shapeC09(scalarShapes[s1])
+	v2, n2 := shapeC09(scalarShapes[s2])
 	lit := []string{"1", "x"}[vChoose(2)]
 	if vBool() {
 		ev := mustCreate(exprFor(op, "a", "q"))
